@@ -1,15 +1,21 @@
 """C06 - removing a removable knot (structural part)."""
 from .. import ops_common as oc
+from .. import skel_drivers
 
 DECIDES = ('for remove_knot x {curve, surface u/v, volume u/v/w}: same block/direction, stride, gather/scatter and size-order rules as C04 '
            '(AX3, AX1, LY1, LY2, LY3); the net shrinks by num[k] on direction k only; every mutation is dominated by the false outcome of '
-           '`check_num and num[k] > s_k`, s_k = find_multiplicity(param[k], knotvector_k) (GD2); wrappers as in C04 (WR1).')
-NOT_DECIDED = ('exactness of A5.8 (removability test, alpha_i/alpha_j blending, restoration of the original control points). In particular the '
-               'pinned tree\'s insert-then-remove failure inside helpers.knot_removal is numerical and has no structural signature: out of reach, not claimed.')
-TECHNIQUE = 'axis-tag dataflow, stride rule in polynomial normal form, CFG dominance of guards, structural gather/scatter rules'
+           '`check_num and num[k] > s_k`, s_k = find_multiplicity(param[k], knotvector_k) (GD2); wrappers as in C04 (WR1). [SKEL, bounded, exact per tuple] '
+           'helpers.knot_removal runs the in-place algorithm A5.8 on a working copy: no element of the input array is read after the corresponding '
+           'element of the working copy has been replaced - neither by a later removal step nor by the final shift (SS1) - and the result has '
+           'n - num cells, every one a defined point of the input shape, for rows and for volume slabs (SK3).')
+NOT_DECIDED = ('exactness of A5.8 beyond its dataflow: the alpha_i/alpha_j formulas, the removability test and its loop bound (an overrun of the '
+               'inner loop makes the test fail for removable knots - a numerical consequence), restoration of the original control points.')
+TECHNIQUE = 'axis-tag dataflow, stride rule in polynomial normal form, CFG dominance of guards, structural gather/scatter rules, bounded index-skeleton interpretation with working-copy tracking'
 
 
 def check(m, run):
     fi = m.func('operations.remove_knot')
     oc.block_rules(m, run, fi, 'remove')
     oc.wrapper_rules(m, run, 'remove_knot', '_remove_knot_func')
+    skel_drivers.c06(m, run)
+    run.floor('SS1.reads-follow-the-working-copy', 2, 'rows and slabs')
